@@ -383,6 +383,18 @@ class AsyncBaseClient:
         if type_ == GraphQLTransportWSMessageType.NEXT:
             if not isinstance(payload, dict) or "data" not in payload:
                 raise GraphQLClientInvalidMessageFormat(message=message)
+            if payload["data"] is None:
+                # nothing to yield: surface the errors of the result instead of dropping it
+                errors = payload.get("errors")
+                if (
+                    not isinstance(errors, list)
+                    or not errors
+                    or not all(isinstance(e, dict) and "message" in e for e in errors)
+                ):
+                    raise GraphQLClientInvalidMessageFormat(message=message)
+                raise GraphQLClientGraphQLMultiError.from_errors_dicts(
+                    errors_dicts=errors, data=None
+                )
             return cast(Dict[str, Any], payload["data"])
 
         if type_ == GraphQLTransportWSMessageType.COMPLETE:
